@@ -22,7 +22,9 @@ CONFIGS["C08"] = dict(
     det_seeds=24,
     rule="programs generated from a seed: W=1..4 workers (closures started with `go`), 1-5 steps each from {mutex-guarded "
          "increment / map element / slice element / helper call / pointer store / loop, RWMutex read/write, channel send, "
-         "local computation}, buffered channel cap 1..4, main drains the channel and waits on a WaitGroup (either order); "
+         "local computation}, buffered channel cap 1..4, main drains the channel and waits on a WaitGroup (either order); half "
+         "of the programs instead start their workers from a function called from main (or two calls deep) while main keeps "
+         "declaring locals and the workers call a named function in a loop (sharing only a channel and a WaitGroup); "
          "25% of programs drop the Ego-level locking (racy by design). Knobs per run: optimizer on/off, symbol allocation "
          "size, preemption probability, free-step budget. non-trivial = >=2 tasks runnable at some decision; distinct = "
          "distinct scheduler decision sequence hash",
@@ -31,7 +33,7 @@ CONFIGS["C08"] = dict(
              "attempts (rule R7) so that channel waits are scheduler decisions", "time: synctest fake clock"],
     assumptions=["programs are drawn from the generator's grammar only", "Go toolchain comparison of outputs is replaced by the "
                  "by-construction result (channels are untyped in Ego, so the programs are not literally Go)"],
-    required_probes=["racy_programs", "synchronised_programs", "site/blocked:mutex", "site/blocked:chan-recv"],
+    required_probes=["racy_programs", "synchronised_programs", "nested_launch_programs", "site/blocked:mutex", "site/blocked:chan-recv"],
 )
 
 CONFIGS["C09"] = dict(
@@ -51,13 +53,15 @@ CONFIGS["C09"] = dict(
     quick=dict(runs=1500, per_proc=100, budget_s=200),
     thorough=dict(runs=60000, per_proc=500, budget_s=1500),
     det_seeds=24,
-    rule="program drawn from 12 families (normal return, runtime error at iteration k, unrecovered panic at depth d, "
+    rule="program drawn from 15 families (normal return, runtime error at iteration k, unrecovered panic at depth d, "
          "recovered panic in try/catch, sort.Slice with an Ego comparator without/with an error at call m, String() method "
          "called by fmt without/with an error, error inside a spawned goroutine, goroutines sleeping past main's exit, workers "
-         "left blocked on a channel, nested callbacks), executed 1-3 times; non-trivial = every run; distinct = distinct "
+         "left blocked on a channel, nested callbacks, a native runtime function that hits a Go run-time panic (injected at "
+         "the runtime-function seam) directly and inside a sort comparator, @fail with ego.runtime.panics=true), executed 1-3 "
+         "times, the host recovering a Go panic per execution as the server does; non-trivial = every run; distinct = distinct "
          "(knobs, scheduler decision sequence) hash",
     real=["tokenizer, compiler, bytecode VM (incl. per-execution signal watcher), runtime/sort and runtime/fmt callbacks into Ego, runtime/time"],
     stubbed=["sync: scheduling shim", "Ego channel operations: scheduled (R7)", "time: synctest fake clock", "os/signal delivery is not simulated (the watcher only ever sees its done channel)"],
     assumptions=["the service-request part of C09 is observed as a probe in the C42 engine, not here"],
-    required_probes=["error_exits", "program_own_blocked_goroutines", "family/sorterr", "family/stringerr", "family/panic"],
+    required_probes=["error_exits", "program_own_blocked_goroutines", "family/sorterr", "family/stringerr", "family/panic", "family/gopanic", "family/failpanic", "go_panics_recovered_by_the_host"],
 )
